@@ -39,8 +39,66 @@ MANIFEST = {
 }
 
 TOL = 1e-5          # intersection_tolerance used by field_optimization_fr
-GUARD_S = 10.0      # CPU-time guard per gen_borehole_config call (a healthy call takes milliseconds, < 1 s for 1000 boreholes)
-GUARD_SWEEP_S = 120.0  # per rotation sweep incl. the re-run per rotation (healthy: up to ~15 s at 0.5 deg steps)
+# CPU-time guards (ITIMER_PROF) are derived from the size of the case.  Measured on the unchanged code (rectangles 100..400 m,
+# spacing 5..10 m, with / without no-go zone and perimeter): one generation of n boreholes costs 1.7e-7 n^2 + 1e-4 n + 0.005 s of CPU
+# (the quadratic part is the duplicate filter).  The estimate below is above every measurement; the guard is GUARD_FACTOR times the
+# estimate (at least GUARD_MIN), so the unchanged code needs < 5 % of it and an expiry on such a case is a finding "does not return".
+# A case whose guard would exceed GUARD_CAP is "large": it runs under max(GUARD_CAP, 4 x estimate) and an expiry is only counted
+# (`guard-expired-large-case`), never reported as a violation.
+GUARD_MIN = 5.0
+GUARD_FACTOR = 25.0
+GUARD_CAP = 150.0
+
+
+def poly_area(poly):
+    return abs(sum(poly[i][0] * poly[(i + 1) % len(poly)][1] - poly[(i + 1) % len(poly)][0] * poly[i][1] for i in range(len(poly)))) / 2.0
+
+
+def est_boreholes(case):
+    return poly_area(case["poly"]) / (case["space"] ** 2) + 2.0 * math.sqrt(max(poly_area(case["poly"]), 1.0)) / case["space"] + 4 \
+        if case.get("space") else 0.0
+
+
+def n_rotations(case):
+    if case.get("start") is None and case.get("stop") is None and case.get("step") is None:
+        return 1
+    start = case["start"] if case.get("start") is not None else -math.pi / 2
+    stop = case["stop"] if case.get("stop") is not None else math.pi / 2
+    return max(1, int(math.ceil((stop - start) / (case["step"] * math.pi / 180.0))) + 1)
+
+
+def plan_guard(case):
+    """Sets case['_est'] (estimated CPU seconds on the unchanged code), case['_guard'] and case['_large']."""
+    kind = case["kind"]
+    if kind in ("li", "pin"):
+        case.update(_est=0.01, _guard=10.0, _large=False)
+        return case
+    n = est_boreholes(case)
+    one = 2.5e-7 * n * n + 2.0e-4 * n + 0.01
+    if case.get("perim") is not None:
+        one *= 1.5
+    if kind == "gen":
+        g = 1
+    elif kind == "translate":
+        g = 2
+    elif kind == "opt":
+        g = 2 * n_rotations(case) + 1
+    elif kind == "alias":
+        g = 2 * (n_rotations(case) + 1) if case.get("sweep") else 3
+    elif kind == "container":
+        g = 5 * ((n_rotations(case) + 1) if case.get("sweep") else 1)
+    else:
+        g = 1
+    est = g * one
+    want = max(GUARD_MIN, GUARD_FACTOR * est, case.get("guard") or 0.0)
+    large = GUARD_FACTOR * est > GUARD_CAP
+    case.update(_est=round(est, 3), _guard=max(GUARD_CAP, 4 * est) if large else want, _large=large)
+    return case
+
+
+def cap_space(poly, space, nmax):
+    """Spacing raised (if needed) so that the lot takes at most about nmax boreholes per generation."""
+    return max(space, round(math.sqrt(poly_area(poly) / nmax), 1))
 EPS_IN = 2e-5       # "inside or on the outline": intersection_tolerance 1e-5 times (|a| + |b|) <= sqrt 2 of a unit normal,
                     # the slack of theorem inside_convex (row/outline intersections are accepted within the tolerance box of an edge)
 EPS_SP = 1e-6       # spacing slack
@@ -347,7 +405,9 @@ def run_impl(case):
     old = signal.signal(signal.SIGPROF, _alarm)   # CPU time of this process: independent of the machine load
     orig_gen, orig_two = rw.gen_borehole_config, rw.two_space_gen_bhc
     try:
-        signal.setitimer(signal.ITIMER_PROF, case.get("guard", GUARD_SWEEP_S if case["kind"] == "opt" else GUARD_S))
+        if "_guard" not in case:
+            plan_guard(case)
+        signal.setitimer(signal.ITIMER_PROF, case["_guard"])
         kind = case["kind"]
         poly = case["poly"]
         nogo = [Shapes(z) for z in case["nogo"]] if case.get("nogo") else None
@@ -492,6 +552,14 @@ def run_impl(case):
     return res
 
 
+def run_impl_timed(case):
+    """run_impl plus the CPU time it took (kept outside the result, which the history stream compares for equality)."""
+    import time
+    t = time.process_time()
+    r = run_impl(case)
+    return r, time.process_time() - t
+
+
 def history_impl(chunk):
     """Call history inside ONE process: run, run again with the very same argument objects, run another
     case, run a third time.  Returns per case None when all three results are equal, otherwise the name
@@ -590,7 +658,7 @@ def known_vertex_row(poly, space, pts, i, j):
     return False
 
 
-def check_field(ctx, case, pts, what, tag):
+def check_field(ctx, case, pts, what, tag, rot_used=None):
     """inside / no-go / spacing predicates on one returned field.  Returns True when everything holds."""
     poly = case["poly"]
     ok = True
@@ -623,7 +691,17 @@ def check_field(ctx, case, pts, what, tag):
     if case.get("perim") is None and not case.get("nogo") and len(pts) >= 2:
         d, i, j = min_pair(pts)
         if d < case["space"] - EPS_SP:
-            if known_vertex_row(poly, case["space"], pts, i, j):
+            on_vertical_edge = any(
+                poly[k][0] == poly[(k + 1) % len(poly)][0] and abs(pts[i][0] - poly[k][0]) <= 1e-6 and abs(pts[j][0] - poly[k][0]) <= 1e-6
+                for k in range(len(poly)))
+            if rot_used is not None and abs(rot_used + math.pi / 2) < 1e-12 and on_vertical_edge:
+                # recorded finding: rotate = -pi/2 is not exact in floating point (cos = 6e-17), the code then works with rows of slope
+                # -8e15 given by two points 1000 m apart; the intersection of such a row with a VERTICAL outline edge is
+                # a2*x + c2 with |c2| ~ 1e17, i.e. garbage in steps of 2..64 m, and the row lying on that edge gets arbitrary boreholes
+                ctx.finding("spacing-rot-minus90-on-vertical-edge",
+                            f"{what} at rotate = -pi/2: boreholes {pts[i]} and {pts[j]} on the vertical outline edge x = {pts[i][0]} are {d:.4g} m apart, "
+                            f"target {case['space']}", {"case": case, "pair": [pts[i], pts[j]]})
+            elif known_vertex_row(poly, case["space"], pts, i, j):
                 ctx.finding("spacing-row-through-vertex-short-chord",
                             f"{what}: boreholes {pts[i]} and {pts[j]} are {d:.4g} m apart, target {case['space']}", {"case": case, "pair": [pts[i], pts[j]]})
             else:
@@ -812,8 +890,9 @@ def run(ctx: core.Ctx):
         "rotate = -90 deg is excluded from the exact model comparison (cos(-pi/2) = 6e-17 in floating point: the code then works with a "
         "row of slope -8e15); it is covered by the predicate",
         "no-go zones and perimeter spacing are covered by the predicate on sampled inputs only (not modelled)",
-        "a non-returning call is detected by a CPU-time guard (ITIMER_PROF) of %.0f s per generation call, %.0f s per rotation sweep "
-        "(healthy calls take milliseconds / up to ~15 s)" % (GUARD_S, GUARD_SWEEP_S),
+        "a non-returning call is detected by a CPU-time guard (ITIMER_PROF) of max(%.0f s, %.0f x the CPU time estimated for the unchanged code "
+        "from the case's size: boreholes per generation x generations); cases whose guard would exceed %.0f s run under a longer guard whose "
+        "expiry is only counted (guard-expired-large-case)" % (GUARD_MIN, GUARD_FACTOR, GUARD_CAP),
     ]
     ctx.lean_prepare()
 
@@ -822,6 +901,8 @@ def run(ctx: core.Ctx):
 
     def add(c):
         c["id"] = len(cases)
+        plan_guard(c)
+        ctx.count("guard:" + ("large-case" if c["_large"] else "<=5s" if c["_guard"] <= 5 else "<=30s" if c["_guard"] <= 30 else "<=150s"))
         cases.append(c)
         return c
 
@@ -886,15 +967,15 @@ def run(ctx: core.Ctx):
                     continue
                 for perm in itertools.permutations(range(n)):
                     add({"kind": "gen", "stream": "multi-ng", "shape": "multi-zone", "poly": poly, "space": space, "rot": rot,
-                         "nogo": [zones[i] for i in perm], "perim": None, "guard": 5.0, "zone_order": list(perm)})
+                         "nogo": [zones[i] for i in perm], "perim": None, "zone_order": list(perm)})
                 if n == 2 and rk in (0.0, math.pi / 2, "generic"):
                     for perm in ((0, 1), (1, 0)):
                         add({"kind": "gen", "stream": "multi-ng", "shape": "multi-zone", "poly": poly, "space": space, "rot": rot,
-                             "nogo": [zones[i] for i in perm], "perim": 0.8, "guard": 5.0, "zone_order": list(perm)})
+                             "nogo": [zones[i] for i in perm], "perim": 0.8, "zone_order": list(perm)})
                         a0 = rot - 0.1
                         add({"kind": "opt", "stream": "multi-ng-opt", "shape": "multi-zone", "poly": poly, "space": space, "step": 4.0,
                              "start": max(-math.pi / 2, a0), "stop": min(math.pi / 2, a0 + 0.25), "nogo": [zones[i] for i in perm], "perim": None,
-                             "guard": 30.0, "zone_order": list(perm)})
+                             "zone_order": list(perm)})
         for rk in (0.0, math.pi / 2, -0.04, "generic"):
             rot = rng.uniform(-1.3, 1.3) if rk == "generic" else rk
             poly, zones, space = gen_multizone(rng, rot, 4)
@@ -904,7 +985,7 @@ def run(ctx: core.Ctx):
             perms = [(0, 1, 2, 3), (3, 2, 1, 0), tuple(rng.sample(range(4), 4)), tuple(rng.sample(range(4), 4))]
             for perm in perms:
                 add({"kind": "gen", "stream": "multi-ng", "shape": "multi-zone", "poly": poly, "space": space, "rot": rot,
-                     "nogo": [zones[i] for i in perm], "perim": None, "guard": 5.0, "zone_order": list(perm)})
+                     "nogo": [zones[i] for i in perm], "perim": None, "zone_order": list(perm)})
     # ------------------------------------------------------------ caller's buffers (float ndarrays) modified after construction
     for _ in range(30 * scale):
         kind, poly = gen_polygon(rng, rng.choice(["ellipse", "ellipse_axes", "rect", "tri_origin", "lattice", "edge_on_axis"]))
@@ -913,6 +994,7 @@ def run(ctx: core.Ctx):
                           ["scale", rng.choice([0.5, 1.5, 2.0])], ["vertex", rng.randrange(12), [rng.uniform(5, 40), rng.uniform(5, 40)]]])
         conv = is_convex(poly)
         nogo = [gen_nogo(rng, poly)] if conv and rng.random() < 0.3 else None
+        space = cap_space(poly, space, 500)
         c = {"kind": "alias", "stream": "alias", "shape": kind, "poly": poly, "space": space, "nogo": nogo, "perim": None, "mutate": mut,
              "mutate_zones": rng.random() < 0.5}
         if rng.random() < 0.3:
@@ -926,7 +1008,8 @@ def run(ctx: core.Ctx):
         kind, poly = gen_polygon(rng)
         conv = is_convex(poly)
         nogo = [gen_nogo(rng, poly)] if conv and rng.random() < 0.3 else None
-        c = {"kind": "container", "stream": "container", "shape": kind, "poly": poly, "space": round(rng.uniform(5, 25), 1), "nogo": nogo, "perim": None}
+        c = {"kind": "container", "stream": "container", "shape": kind, "poly": poly, "space": cap_space(poly, round(rng.uniform(5, 25), 1), 500),
+             "nogo": nogo, "perim": None}
         if rng.random() < 0.25:
             a0 = rng.uniform(-1.4, 1.0)
             c.update(sweep=True, step=rng.choice([5.0, 10.0]), start=a0, stop=min(math.pi / 2, a0 + rng.uniform(0.2, 0.6)), rot=None)
@@ -1001,11 +1084,23 @@ def run(ctx: core.Ctx):
         ctx.count("vertices:%d" % len(c["poly"]))
 
     # ------------------------------------------------------------ run the implementation (pool) and the model
-    results = core.pool_map(run_impl, cases, chunksize=4)
+    timed = core.pool_map(run_impl_timed, cases, chunksize=4)
+    results = [r for r, _ in timed]
+    # how much of its guard each returning case used: the estimate behind the guards is re-measured on every run
+    used = [(cpu / c["_guard"], cpu / max(c["_est"], 1e-3), c) for (r, cpu), c in zip(timed, cases) if r["status"] != "timeout" and not c["_large"]]
+    if used:
+        top = max(used, key=lambda u: u[0])
+        ctx.extra["guard_usage"] = {"max_fraction_of_guard_used_by_a_returning_case": round(top[0], 4), "that_case": {"kind": top[2]["kind"], "stream": top[2]["stream"],
+                                    "estimated_cpu_s": top[2]["_est"], "guard_s": top[2]["_guard"]},
+                                    "max_cpu_over_estimate": round(max(u[1] for u in used if u[2]["_est"] >= 0.3), 3)
+                                    if any(u[2]["_est"] >= 0.3 for u in used) else None}
+        for frac, _, c in used:
+            if frac > 0.2:
+                ctx.count("guard:returning-case-used-more-than-20-percent")
     ctx.programs = 6
     # call histories in one process: a later run of the same case that differs from the first replaces
     # the single-run result, so that every predicate below judges it
-    hist = [c["id"] for c in cases if c["kind"] in ("gen", "opt", "li") and results[c["id"]]["status"] == "ok" and c.get("guard") is None]
+    hist = [c["id"] for c in cases if c["kind"] in ("gen", "opt", "li") and results[c["id"]]["status"] == "ok" and c.get("guard") is None and not c.get("_large")]
     hist = hist[:: max(1, len(hist) // (150 if ctx.tier == "quick" else 900))]
     hchunks = [hist[j:j + 6] for j in range(0, len(hist), 6)]
     for ch, hr in zip(hchunks, core.pool_map(history_impl, [[cases[i] for i in ch] for ch in hchunks]) if hchunks else []):
@@ -1080,8 +1175,17 @@ def run(ctx: core.Ctx):
 
         # ---------------- termination
         if r["status"] == "timeout":
-            ctx.finding(f"nontermination:{tag}", f"{c['kind']} did not return within {c.get('guard', GUARD_SWEEP_S if c['kind'] == 'opt' else GUARD_S)} s of CPU time on outline {c['poly']} "
-                        f"(spacing {c.get('space')}, rotation {c.get('rot')}, window {c.get('start')}..{c.get('stop')})", {"case": c})
+            if c["_large"]:
+                # not small enough for a verdict: the unchanged code itself may need a sizeable part of any affordable guard
+                ctx.count("guard-expired-large-case")
+                ctx.extra.setdefault("guard_expired_large_cases", []).append(
+                    {"kind": c["kind"], "stream": tag, "estimated_cpu_s": c["_est"], "guard_s": c["_guard"], "vertices": len(c["poly"]),
+                     "space": c.get("space"), "rotations": n_rotations(c)})
+                continue
+            ctx.finding(f"nontermination:{tag}", f"{c['kind']} did not return within {c['_guard']:.1f} s of CPU time (the unchanged code is estimated "
+                        f"to need {c['_est']} s for a case of this size) on outline {c['poly']} "
+                        f"(spacing {c.get('space')}, rotation {c.get('rot')}, window {c.get('start')}..{c.get('stop')}, no-go zones {len(c.get('nogo') or [])})",
+                        {"case": {k: v for k, v in c.items() if not k.startswith("_")}})
             continue
         if r["status"] == "raise":
             # ZeroDivisionError is the documented answer for a lot narrower than one row spacing; anything else is unexpected
@@ -1105,7 +1209,7 @@ def run(ctx: core.Ctx):
         # ---------------- per kind
         if c["kind"] in ("gen", "translate"):
             pts = r["points"]
-            check_field(ctx, c, pts, "gen_borehole_config" if c.get("perim") is None else "two_space_gen_bhc", tag)
+            check_field(ctx, c, pts, "gen_borehole_config" if c.get("perim") is None else "two_space_gen_bhc", tag, rot_used=_angle(c["rot"]))
             ctx.count("boreholes:" + ("0-1" if len(pts) < 2 else "2-20" if len(pts) <= 20 else "21-100" if len(pts) <= 100 else ">100"))
             if "gen" in m:
                 nb, st, payload = parse_model(m["gen"])
@@ -1151,7 +1255,9 @@ def run(ctx: core.Ctx):
                     ctx.count("translate:rigid")
         elif c["kind"] == "opt":
             pts = r["points"]
-            check_field(ctx, c, pts, "field_optimization_fr" if c.get("perim") is None else "field_optimization_wp_space_fr", tag)
+            _cnt = [len(f) for _, f in r["own_fields"]]
+            _rot_used = r["own_fields"][_cnt.index(max(_cnt))][0] if _cnt else None
+            check_field(ctx, c, pts, "field_optimization_fr" if c.get("perim") is None else "field_optimization_wp_space_fr", tag, rot_used=_rot_used)
             if c.get("single_rot0"):
                 if c.get("shape") == "rect":
                     check_rect(ctx, c, pts, "field_optimization_fr over [0 deg]")
